@@ -101,6 +101,10 @@ fn disarm() -> usize {
 }
 
 static LAST_PANIC: Mutex<Option<String>> = Mutex::new(None);
+/// watchdog kills so far (parent side): a tree that hangs everywhere must not cost hours
+static HANGS: AtomicUsize = AtomicUsize::new(0);
+const HANGS_SHORT_TIMEOUT: usize = 36;
+const HANGS_GIVE_UP: usize = 240;
 
 fn take_panic() -> String {
     LAST_PANIC
@@ -794,6 +798,7 @@ impl Worker {
             }
             Err(std::sync::mpsc::RecvTimeoutError::Timeout) => {
                 self.killed += 1;
+                HANGS.fetch_add(1, Ordering::Relaxed);
                 self.respawn();
                 Obs { class: "hang".into(), detail: format!("no answer within {} ms", timeout.as_millis()), post: "ok".into(), extra: "-".into(), alloc: 0 }
             }
@@ -814,11 +819,11 @@ impl Drop for Worker {
 }
 
 /// the failure sites of the model, in the order of `Site.all` (bit i of the fix mask)
-const SITES: [&str; 27] = [
+const SITES: [&str; 28] = [
     "snaIm", "snaPage", "szxIdUtf8", "szxAlloc", "szxCrtrShort", "szxCrtrUtf8", "szxZ80rShort", "szxZ80rIm",
     "szxSpcrShort", "szxSpcrBorder", "szxAyShort", "szxKeybShort", "szxAmxmShort", "szxRampShort",
     "szxRampPage", "szxRampData", "szxRampInflated", "tapArith", "tapIndex", "tapPilot", "vtxSpin",
-    "vtxScan", "vtxArith", "vtxStrings", "vtxAlloc", "vtxPlayerFreq", "vtxLha",
+    "vtxScan", "vtxArith", "vtxStrings", "vtxAlloc", "vtxPlayerFreq", "vtxLha", "snaRev",
 ];
 
 fn site_bit(name: &str) -> u32 {
@@ -957,6 +962,9 @@ fn vtx_claim(bytes: &[u8]) -> u64 {
 
 impl Ctx {
     fn timeout_for(&self, c: &Case) -> Duration {
+        if HANGS.load(Ordering::Relaxed) > HANGS_SHORT_TIMEOUT {
+            return Duration::from_millis(300);
+        }
         if inner_loader(c) == "vtx" {
             self.vtx_timeout
         } else {
@@ -1064,8 +1072,13 @@ impl Ctx {
                 }
             }
             l if l.starts_with("gz:") => {
-                let dl = obs.extra.strip_prefix("gz=").map(|h| h.len() / 2).unwrap_or(0);
-                2 * dl as u64 + 65536
+                // read_to_end doubles its buffer while flate2 delivers: twice the decompressed length;
+                // when the container turns out damaged the delivered part is unknown: deflate's maximal
+                // expansion (1032:1) bounds it
+                match obs.extra.strip_prefix("gz=") {
+                    Some(h) if h != "err" && h != "panic" => 2 * (h.len() / 2) as u64 + 65536,
+                    _ => 2 * 1032 * len as u64 + 65536,
+                }
             }
             _ => 0,
         };
@@ -1089,6 +1102,8 @@ impl Ctx {
                 pred.detail.clone()
             } else if obs.class == "hang" && model_class == "hang" && loader == "vtx" {
                 "vtxSpin".to_string()
+            } else if obs.class == "hang" {
+                "unpredicted:hang".to_string()
             } else {
                 format!("unpredicted:{}:{}", obs.class, obs.detail)
             };
@@ -2051,7 +2066,7 @@ fn run_all(ctx: &mut Ctx, rep: &mut Report, o: &Opts, q: Vec<Case>) {
                 let mut cx = new_ctx(o, fix);
                 let mut out = vec![];
                 let mut i = t;
-                while i < qref.len() {
+                while i < qref.len() && HANGS.load(Ordering::Relaxed) <= HANGS_GIVE_UP {
                     out.push((i, cx.eval(&qref[i])));
                     i += threads;
                 }
@@ -2068,9 +2083,19 @@ fn run_all(ctx: &mut Ctx, rep: &mut Report, o: &Opts, q: Vec<Case>) {
             }
         }
     });
+    let mut skipped = 0u64;
     for (c, ev) in q.iter().zip(results.into_iter()) {
-        let ev = ev.expect("case not evaluated");
-        fold_case(ctx, rep, c, ev);
+        match ev {
+            Some(ev) => fold_case(ctx, rep, c, ev),
+            None => skipped += 1,
+        }
+    }
+    if skipped > 0 {
+        rep.notes.push(format!(
+            "{} cases were not run: the watchdog had already killed more than {} hanging workers",
+            skipped, HANGS_GIVE_UP
+        ));
+        rep.count("skipped", "after too many hangs");
     }
     rep.extra.push(("parallel_workers".into(), J::I(threads as i64)));
     rep.extra.push(("worker_processes_started".into(), J::I((started + ctx.worker.spawned) as i64)));
@@ -2141,6 +2166,16 @@ kind or failure site)"
                 ctx.fix |= site_bit("vtxStrings");
             }
             fixed_sites.push(site.to_string());
+        }
+    }
+    {
+        // behaviour switch of the SNA repair: is a 48K snapshot refused by the 128K machine as well?
+        let mut c = Case::new("sna").machine(true, false, 0);
+        c.segs = sna_segs(&[1u8; 27], 49179, [0; 4], 0);
+        let t = ctx.timeout_for(&c);
+        if ctx.worker.run(&c, t).class == "err" {
+            ctx.fix |= site_bit("snaRev");
+            fixed_sites.push("snaRev".to_string());
         }
     }
     rep.extra.push(("repaired_sites_detected".into(), J::A(fixed_sites.iter().map(|s| J::s(s.clone())).collect())));
@@ -2245,6 +2280,34 @@ kind or failure site)"
         for f in &parts.files {
             real.push(("vtx".into(), f.clone()));
         }
+        // the repository's gzip-compressed assets through the real GzipAsset, intact and damaged
+        for (l, p) in [
+            ("gz:sna", ".cache/repo/rustzx-test/test_data/sound.128k.sna.gz"),
+            ("gz:sna", ".cache/repo/rustzx-test/test_data/mouse.48k.sna.gz"),
+            ("gz:tap", ".cache/repo/rustzx-test/test_data/simple_tape.tap.gz"),
+        ] {
+            if let Ok(raw) = std::fs::read(p) {
+                rep.count("real_files", l.to_string());
+                for k in 0..o.n(5, 100) {
+                    let mut d = raw.clone();
+                    if k > 0 {
+                        if rng.bool() {
+                            let cut = rng.below(d.len() as u64) as usize;
+                            d.truncate(cut);
+                        } else {
+                            let i = rng.below(d.len() as u64) as usize;
+                            d[i] ^= 1 << rng.below(8);
+                        }
+                    }
+                    let mut c = Case::new(l).machine(p.contains("128k"), false, 0);
+                    if l == "gz:tap" {
+                        c.extra = "f1:0:11:4000".into();
+                    }
+                    c.segs = vec![Seg::H(d)];
+                    q.push(c);
+                }
+            }
+        }
         let per = o.n(6, 200);
         for (l, d) in &real {
             rep.count("real_files", l.clone());
@@ -2320,11 +2383,11 @@ kind or failure site)"
     }
     // 5. structure-aware random files
     let scale = |q: u64, t: u64| o.n(q, t);
-    for _ in 0..scale(2200, 300_000) {
+    for _ in 0..scale(3000, 300_000) {
         let c = gen_sna(&mut rng);
         q.push(c);
     }
-    for _ in 0..scale(6000, 900_000) {
+    for _ in 0..scale(8000, 900_000) {
         let c = gen_szx(&mut rng);
         q.push(c);
     }
@@ -2344,11 +2407,11 @@ kind or failure site)"
         let c = gen_tapc(&mut rng);
         q.push(c);
     }
-    for _ in 0..scale(2500, 300_000) {
+    for _ in 0..scale(3000, 300_000) {
         let c = gen_vtx(&mut rng, &parts);
         q.push(c);
     }
-    for _ in 0..scale(2000, 200_000) {
+    for _ in 0..scale(3000, 200_000) {
         let c = gen_random(&mut rng);
         q.push(c);
     }
